@@ -165,7 +165,7 @@ impl<T> Receiver<T> {
         }
         if self.c().len == 0 {
             if self.c().senders == 0 { return Err(RecvError); }
-            if let Some(h) = unsafe { vs::BLOCK_HOOK } { h(self.c().class as u8); }
+            if let Some(h) = unsafe { vs::RECV_BLOCK_HOOK } { h(self.c().class as u8); }
             if self.c().len == 0 {
                 if self.c().senders > 0 { unsafe { vs::PARKED = true; } self.c().parked = 1; }
                 return Err(RecvError);
